@@ -81,7 +81,19 @@ class Subject:
     def __init__(self, kind, callid=None, var=None, field=None, lhs_text=None):
         self.kind, self.callid, self.var, self.field, self.lhs_text = kind, callid, var, field, lhs_text
 
-    def pred(self):
+    def pred(self, aliases=()):
+        if aliases and self.kind != "call" and self.var is not None:
+            base = self.pred()
+            fld = self.field
+            al = set(aliases)
+
+            def pa(t):
+                if base(t):
+                    return True
+                if fld:
+                    return isinstance(t, list) and t and t[0] == "member" and t[2] == fld and is_var(t[1]) and strip_casts(t[1])[1] in al
+                return is_var(t) and strip_casts(t)[1] in al
+            return pa
         if self.kind == "call":
             cid, fld = self.callid, self.field
 
@@ -123,11 +135,13 @@ class Subject:
                     return True
         return False
 
-    def returned_by(self, e):
+    def returned_by(self, e, aliases=()):
         ex = e.get("expr")
         if not ex:
             return False
         t = strip_casts(ex["tree"])
+        if aliases and (is_var(t) and t[1] in aliases):
+            return True
         if self.kind == "call":
             return any(n[0] in ("call", "icall") and n[1] == self.callid for n in walk(t))
         if self.var is not None:
@@ -262,14 +276,15 @@ def _vars_of(tree):
 
 
 def _kill(facts, e):
-    """facts surviving event e"""
+    """facts surviving event e.  A store *through* a pointer (p->x = .., *p = .., p[i] = ..) does not change the
+    pointer itself: facts that are only about the pointer's own value (p != 0) survive it."""
     if not facts:
         return facts
     killed = set()
+    through = set()
     if e["k"] == "assign":
         if e.get("base"):
-            killed.add(e["base"])
-        lhs = e.get("lhs", "")
+            (through if e.get("deref") else killed).add(e["base"])
     elif e["k"] == "decl":
         killed.add(e["var"])
     elif e["k"] == "call":
@@ -278,9 +293,18 @@ def _kill(facts, e):
             if isinstance(t, list) and t and t[0] == "un" and t[1] == "&":
                 for v in _vars_of(t):
                     killed.add(v.split("@")[0])
-    if not killed:
+    if not killed and not through:
         return facts
-    return tuple(f for f in facts if not (f[1] & killed))
+
+    def survives(f):
+        (a, _op, b), vs = f
+        if vs & killed:
+            return False
+        if vs & through:
+            # keep only facts about the pointer variable itself
+            return a in through and (isinstance(b, int) or b in through) and len(vs) == 1
+        return True
+    return tuple(f for f in facts if survives(f))
 
 
 def explore(f, start_block, start_idx, subject, value, classify_return, max_states=40000, origin_callid=None, from_entry=True):
@@ -297,13 +321,14 @@ def explore(f, start_block, start_idx, subject, value, classify_return, max_stat
     dq = collections.deque()
     # state: block, pos, phase(0 before site,1 after), lost, facts, env, path
     if from_entry:
-        dq.append((f.entry, 0, 0, False, (), frozenset(), (f.entry,), False))
+        dq.append((f.entry, 0, 0, False, (), frozenset(), (f.entry,), False, frozenset()))
     else:
-        dq.append((start_block.id, start_idx + 1, 1, False, (), frozenset(), (start_block.id,), False))
+        dq.append((start_block.id, start_idx + 1, 1, False, (), frozenset(), (start_block.id,), False, frozenset()))
     n = 0
     reported = set()
     while dq:
-        bid, pos, phase, lost, facts, env, path, forced = dq.popleft()
+        bid, pos, phase, lost, facts, env, path, forced, aliases = dq.popleft()
+        subj = subject.pred(aliases)
         n += 1
         if n > max_states:
             out.append(("unknown:state-limit", f.blocks[bid], 0, {"line": None}, path, lost))
@@ -318,7 +343,7 @@ def explore(f, start_block, start_idx, subject, value, classify_return, max_stat
                 continue
             if e["k"] == "return":
                 if phase == 1:
-                    if not lost and subject.returned_by(e):
+                    if not lost and subject.returned_by(e, aliases):
                         stop = True
                         break
                     if not lost and e.get("expr") and mentions(e["expr"]["tree"], subj):
@@ -361,6 +386,15 @@ def explore(f, start_block, start_idx, subject, value, classify_return, max_stat
                 val = c if c is not None else ("call:%s" % r[1] if isinstance(r, list) and r and r[0] in ("call", "icall") else "nonconst")
                 envd[(e["id"], None)] = val
                 env = frozenset(envd.items())
+            if phase == 1 and not lost and subject.kind != "call" and subject.var is not None and e["k"] == "assign" \
+                    and e.get("op") == "=" and e.get("base_kind") == "local" and not e.get("deref") and e.get("lhs") == e.get("base") and "rhs" in e:
+                rr = strip_casts(e["rhs"]["tree"])
+                if is_var(rr) and (rr[1] == subject.var or rr[1] in aliases) and e["base_id"] != subject.var:
+                    aliases = aliases | {e["base_id"]}      # whole-object copy of the result: `er = tmper`
+                    subj = subject.pred(aliases)
+                elif e["base_id"] in aliases:
+                    aliases = aliases - {e["base_id"]}
+                    subj = subject.pred(aliases)
             if phase == 1 and not lost and subject.overwritten_by(e):
                 if origin_callid is not None and _stores_call(e, origin_callid):
                     continue
@@ -435,9 +469,9 @@ def explore(f, start_block, start_idx, subject, value, classify_return, max_stat
                 nf = tuple([x for x in facts if x != fo] + [fo])
                 if len(nf) > 32:
                     nf = nf[-32:]
-            key = (s, phase, lost, nf, env, by_assumption)
+            key = (s, phase, lost, nf, env, by_assumption, aliases)
             if key in seen:
                 continue
             seen.add(key)
-            dq.append((s, 0, phase, lost, nf, env, path + (s,) if len(path) < 200 else path, by_assumption))
+            dq.append((s, 0, phase, lost, nf, env, path + (s,) if len(path) < 200 else path, by_assumption, aliases))
     return out
